@@ -8,17 +8,27 @@ namespace SPModel.C22
 open SPModel SPModel.Api
 
 theorem windowVal_length {α} (w s st : Nat) (vals : List α) (i : Nat) : (windowVal w s st vals i).length = w := by
-  sorry
+  unfold windowVal
+  split
+  · simp
+  · split <;> simp
 
 /-- before the start, and on trials skipped by the stride, every entry is NaN -/
 theorem windowVal_undefined {α} (w s st : Nat) (vals : List α) (i : Nat)
     (h : i < st ∨ (s > 1 ∧ (i - st) % s ≠ 0)) : windowVal w s st vals i = List.replicate w none := by
-  sorry
+  unfold windowVal
+  split
+  · rfl
+  · rcases h with h | h
+    · contradiction
+    · rw [if_pos h]
 
 /-- otherwise entry `k` is the value of the same sequence `k` trials earlier (NaN before trial 0) -/
 theorem windowVal_defined {α} (w s st : Nat) (vals : List α) (i k : Nat)
     (h1 : st ≤ i) (h2 : s ≤ 1 ∨ (i - st) % s = 0) (hk : k < w) :
     (windowVal w s st vals i)[k]? = some (if k ≤ i then vals[i - k]? else none) := by
-  sorry
+  unfold windowVal
+  rw [if_neg (by omega), if_neg (by omega)]
+  simp [hk]
 
 end SPModel.C22
